@@ -85,6 +85,48 @@ let ores f o = match o with Some x -> f x | None -> "Err"
 
 let res_str (r : n res) = match r with Ok n -> "Ok:" ^ dec_of_n n | Err _ -> "Err" | Panic -> "Panic"
 
+
+(* ---- whole record lines (NV.Vcf.Line) ---- *)
+let hex_s (b : n list) = hex_of_bytes b
+let lst_of (s : string) : n list list =
+  if s = "~" then [] else List.map bytes_of_hex (split_on ';' s)
+let lst_str (l : n list list) = if l = [] then "~" else String.concat ";" (List.map hex_s l)
+
+let kv_of (s : string) =
+  match String.index_opt s '=' with
+  | Some i -> (bytes_of_hex (String.sub s 0 i), value_of (sub s (i + 1)))
+  | None -> failwith "kv"
+
+let rec_of (s : string) : vrec =
+  match split_on '&' s with
+  | [c; p; ids; rf; alts; q; fl; info; keys; rows] ->
+      { r_chrom = bytes_of_hex c; r_pos = n_of_dec p; r_ids = lst_of ids; r_ref = bytes_of_hex rf;
+        r_alts = lst_of alts; r_qual = (if q = "." then None else Some (n_of_dec q));
+        r_filters = lst_of fl;
+        r_info = (if info = "~" then [] else List.map kv_of (split_on ';' info));
+        r_keys = lst_of keys;
+        r_samples = (if rows = "~" then [] else
+          List.map (fun row -> if row = "_" then [] else List.map value_of (split_on ';' row)) (split_on '!' rows)) }
+  | _ -> failwith "rec"
+
+let rec_str (r : vrec) : string =
+  String.concat "&" [
+    hex_s r.r_chrom; dec_of_n r.r_pos; lst_str r.r_ids; hex_s r.r_ref; lst_str r.r_alts;
+    (match r.r_qual with None -> "." | Some b -> dec_of_n b); lst_str r.r_filters;
+    (if r.r_info = [] then "~" else String.concat ";" (List.map (fun (k, v) -> hex_s k ^ "=" ^ spec v) r.r_info));
+    lst_str r.r_keys;
+    (if r.r_samples = [] then "~" else String.concat "!" (List.map specs r.r_samples)) ]
+
+let hdefs (s : string) =
+  if s = "-" then [] else
+  List.map (fun d -> match split_on '/' d with
+    | [k; n; t] -> (bytes_of_string k, (num_of n, ty_of t)) | _ -> failwith "hdef") (split_on ',' s)
+
+let hctx_of ver infos fmts ns =
+  { h_v44 = v44 ver; h_infos = hdefs infos; h_formats = hdefs fmts; h_nsamples = nat_of_int (int_of_string ns) }
+
+let span_str v45 r = res_str (rec_end v45 r) ^ "," ^ res_str (rec_span v45 r)
+
 let handle kind a =
   try
     match kind with
@@ -126,6 +168,25 @@ let handle kind a =
         (match view false, view true with
          | Some e, Some l -> Some (show r ^ "|" ^ e ^ "|" ^ l)
          | _, _ -> Some "WErr")
+    | "line" ->
+        let h = hctx_of a.(0) a.(1) a.(2) a.(3) in
+        let r = rec_of a.(4) in
+        let tab = ftab a.(5) in
+        let v45 = a.(0) = "4.5" in
+        (match write_line (fmt_of tab) h r with
+         | None -> Some ("WErr|" ^ span_str v45 r)
+         | Some t ->
+             let show o = match o with None -> ("Err", "-") | Some x -> (rec_str x, span_str v45 x) in
+             let (e, se) = show (read_eager (prs_of tab) h (frame (t @ [n_of_int 10]))) in
+             let (l, sl) = show (read_lazy (prs_of tab) h (frame (t @ [n_of_int 10]))) in
+             Some (hex_of_bytes t ^ "|" ^ e ^ "|" ^ l ^ "|" ^ span_str v45 r ^ "/" ^ se ^ "/" ^ sl))
+    | "ltxt" ->
+        let h = hctx_of a.(0) a.(1) a.(2) a.(3) in
+        let tab = ftab a.(5) in
+        let v45 = a.(0) = "4.5" in
+        let t = frame (bytes_of_hex a.(4)) in
+        let show o = match o with None -> "Err" | Some x -> rec_str x ^ "/" ^ span_str v45 x in
+        Some (show (read_eager (prs_of tab) h t) ^ "|" ^ show (read_lazy (prs_of tab) h t))
     | _ -> None
   with Unmodelled -> None
 
